@@ -1,6 +1,7 @@
 """C05 — accepted => the whole token stream is one grammar sentence."""
 import json, re, sys
-from tools.harness import common, lr, gen, streams
+from tools.harness import common, lr, gen, streams, extra
+import itertools
 from tools.harness.common import DIALECTS
 
 ID = 'C05'
@@ -46,7 +47,10 @@ def run(chk):
         R = lr.real(d)
         E = gen.Earley(d)
         G = gen.Grammar(d)
-        for case in streams.statement_stream(d, rng, n_mut, n_sent, grammar=G):
+        fam = [c for f in extra.layout_variant_stream(d, rng, 25 if not deep else 400) for c in f]
+        more = itertools.chain(extra.append_terminal_stream(d, rng, 6 if not deep else 120), fam,
+                               extra.recase_stream(d, rng, 40 if not deep else 600), extra.numeric_position_stream(d, rng))
+        for case in itertools.chain(streams.statement_stream(d, rng, n_mut, n_sent, grammar=G), more):
             text = case['text']
             s2 = re.sub(r'[\s;]+$', '', text)
             toks, bad = R.tokenize(s2)
